@@ -39,7 +39,8 @@ Rewrite rules (closed list, every application logged with source line):
   N4  `E.map_or(LIT, |p| B)` -> `(match E { Some(p) => B, None => LIT })` (definition of Option::map_or)
   N5  `E.map(|p| B).unwrap_or(LIT)` -> `(match E { Some(p) => B, None => LIT })`
   N7  `E.is_some_and(|p| B)` / `E.is_none_or(|p| B)` -> `match` (definitions)
-  N6  iterator chains `X.iter().any(|p| B)` and `X.iter().filter(|p| F).map(|q| E).collect()` ->
+  N8  `E.map(|p| B)` on an Option -> `match`
+  N6  iterator chains `X.iter().position(|p| B)`, `X.iter().any(|p| B)` and `X.iter().filter(|p| F).map(|q| E).collect()` ->
       explicit `for` loops (definitions of the adapters for side-effect-free closures)
   A   arm focus (see //@arms)
   P   prefix focus (//@cut before=/re/): the function's statements from the anchor (a top-level
@@ -822,9 +823,9 @@ def desugar_iter_chains(text, log, relfile, line):
             if i + 1 >= n or toks[i + 1].text != "(":
                 continue
             rs = _recv_start(toks, i - 5)
-            if t.text == "any":
+            if t.text in ("any", "position"):
                 pat, body, c = _closure_parts(toks, text, i + 1)
-                cands.append(("any", toks[rs].start, toks[c].end, text[toks[rs].start:toks[i - 5].start], pat, body, None, None))
+                cands.append((t.text, toks[rs].start, toks[c].end, text[toks[rs].start:toks[i - 5].start], pat, body, None, None))
             elif t.text == "filter":
                 pat, body, c = _closure_parts(toks, text, i + 1)
                 if c + 3 < n and toks[c + 1].text == "." and toks[c + 2].text == "map" and toks[c + 3].text == "(":
@@ -843,7 +844,10 @@ def desugar_iter_chains(text, log, relfile, line):
                     if SIDE_EFFECT_RE.search(b) or re.search(r"[^=!<>]=[^=>]", b.replace("==", "")):
                         raise VxError("N6: closure body may have side effects: %r" % b[:80])
         recv = recv.strip()
-        if kind == "any":
+        if kind == "position":
+            repl = "{\nlet mut __p%d: Option<usize> = None;\nlet mut __n%d: usize = 0;\nfor __i%d in %s.iter() {\n%s\nif __p%d.is_none() && %s {\n__p%d = Some(__n%d);\n}\n__n%d += 1;\n}\n__p%d\n}" % (
+                k, k, k, recv, _bind(pat, "__i%d" % k, False), k, body, k, k, k, k)
+        elif kind == "any":
             repl = "{\nlet mut __a%d = false;\nfor __i%d in %s.iter() {\n%s\nif %s {\n__a%d = true;\n}\n}\n__a%d\n}" % (
                 k, k, recv, _bind(pat, "__i%d" % k, False), body, k, k)
         else:
@@ -874,6 +878,28 @@ def rule_N7(src, lo, hi, enabled):
                 pass
             dflt = "false" if t.text == "is_some_and" else "true"
             out.append(("N7", toks[rs].start, toks[c].end, "(match %s { Some(%s) => %s, None => %s })" % (recv, pat, body, dflt)))
+    return out
+
+
+def rule_N8(src, lo, hi, enabled):
+    """E.map(|p| B)  (Option::map, not followed by .unwrap_or) -> (match E { Some(p) => Some(B), None => None })"""
+    out = []
+    if "N8" not in enabled:
+        return out
+    toks = code_toks(tokenize(src[lo:hi], lo))
+    n = len(toks)
+    for i, t in enumerate(toks):
+        if t.kind == "ident" and t.text == "map" and i > 0 and toks[i - 1].text == "." and i + 2 < n and toks[i + 1].text == "(" \
+                and toks[i + 2].text == "|":
+            c = match_close(toks, i + 1)
+            if c + 2 < n and toks[c + 1].text == "." and toks[c + 2].text in ("unwrap_or", "collect", "map", "filter", "sum", "any", "all"):
+                continue
+            if toks[i - 2].text == ")" and i >= 4 and toks[i - 4].text in ("iter", "into_iter", "range", "drain", "keys", "values"):
+                continue
+            pat, body, c = _closure_parts(toks, src, i + 1)
+            rs = _recv_start(toks, i - 1)
+            recv = src[toks[rs].start:toks[i - 1].start].strip()
+            out.append(("N8", toks[rs].start, toks[c].end, "(match %s { Some(%s) => Some(%s), None => None })" % (recv, pat, body)))
     return out
 
 
@@ -1085,7 +1111,7 @@ def loop_headers(body):
 # --------------------------------------------------------------------------------------
 # vspec processing
 # --------------------------------------------------------------------------------------
-ALL_RULES = ["D1", "D2", "D3", "D5", "D6", "R1", "N1", "N2", "N3", "N4", "N5", "N6", "N7"]
+ALL_RULES = ["D1", "D2", "D3", "D5", "D6", "R1", "N1", "N2", "N3", "N4", "N5", "N6", "N7", "N8"]
 KV_RE = re.compile(r'(\w+)=("([^"]*)"|\S+)')
 
 
@@ -1318,7 +1344,7 @@ class Gen:
                                  after="{ return self.vx_other_arm(); }"))
             src = src[:lo] + new_body + src[hi:]
             hi = lo + len(new_body)
-        if "N6" in enabled and re.search(r"\.iter\(\)\s*\.(any|filter)\(", src[lo:hi]):
+        if "N6" in enabled and re.search(r"\.iter\(\)\s*\.(any|filter|position)\(", src[lo:hi]):
             new_body = desugar_iter_chains(src[lo:hi], self.log, rel, fn_line)
             src = src[:lo] + new_body + src[hi:]
             hi = lo + len(new_body)
@@ -1344,6 +1370,7 @@ class Gen:
         edits += rule_N4(src, lo, hi, enabled)
         edits += rule_N5(src, lo, hi, enabled)
         edits += rule_N7(src, lo, hi, enabled)
+        edits += rule_N8(src, lo, hi, enabled)
         for rule, s, e, repl in edits:
             if rule not in ("D1", "D2"):
                 pass
